@@ -69,6 +69,34 @@ def strategy(tier):
     return _case()
 
 
+ALPHA = ["offerA1", "offerAinf", "stopA", "offerB", "T-q", "T+q", "T-4", "+0.1"]
+ENUM_LEN = {"quick": 5, "thorough": 6}
+EXHAUSTIVE = {"quick": "all 8^5 = 32768 scripts of length 5 over {offer A ttl 1, offer A infinite, stop-offer A, offer B} x timing prefixes {next timer -RES/4, +RES/4, -4RES, +0.1 s} against two watched filters (A by wildcard, B concrete), 3 repetitions",
+              "thorough": "all 8^6 = 262144 scripts of length 6 over the same alphabet"}
+
+
+def enum_size(tier):
+    return len(ALPHA) ** ENUM_LEN[tier]
+
+
+def enum_case(tier, idx):
+    steps = []
+    when = ["d", 0.05]
+    for _ in range(ENUM_LEN[tier]):
+        idx, r = divmod(idx, len(ALPHA))
+        a = ALPHA[r]
+        if a in ("T-q", "T+q", "T-4", "+0.1"):
+            when = {"T-q": ["t", 0, "-q"], "T+q": ["t", 0, "+q"], "T-4": ["t", 0, "-4"], "+0.1": ["d", 0.1]}[a]
+            continue
+        if a == "stopA":
+            steps.append({"op": "stop", "src": 0, "s": 0, "when": when})
+        else:
+            steps.append({"op": "offer", "src": 0, "s": 3 if a == "offerB" else 0, "ttl": 1 if a == "offerA1" else INF, "when": when})
+        when = ["d", 0.05]
+    return {"filters": [[0x1000, WI, WM, WN], [0x2000, 0x0101, 1, 0x10000]], "imin": 0.1, "imax": 0.1, "reps": 3, "base": 0.2, "fttl": 3, "fr": 0.5, "pre": [],
+            "steps": steps + [{"op": "wait", "when": ["d", 1.2]}]}
+
+
 def fixed_cases(tier):
     out = []
     f2 = [[0x1000, WI, WM, WN], [0x2000, 0x0101, 1, 0x10000]]
